@@ -20,7 +20,7 @@ ASSUMPTIONS = [
 ]
 DECIDING_COUNTERS = ["c09_bins", "c09_swap_pairs", "c09_solo_pairs", "c09_lindep_bins",
                      "c09_many_segment_bins",
-                     "c09_single_segment_bins"]
+                     "c09_single_segment_bins", "c09_reads_after_other_attributes"]
 MIN_NONTRIVIAL = {"quick": 150, "thorough": 2500}
 JOBS = {"quick": 8, "thorough": 16}
 
@@ -99,6 +99,28 @@ def one_case(rec, seedt, nmax):
     rec.distinct("pair_kinds", kind)
     tag = f"[{kind}, {desc['backend']}, order {desc['order']}] "
     resultcheck.c09_identities(res, rec, tag)
+
+    # History on the result object: a user reads other quantities (error bars, exports) and comes
+    # back to the coherence / residual spectra - they must still be the same, valid values.
+    if seedt[-1] % 2 == 0:
+        with np.errstate(all="ignore"):
+            try:
+                coh0 = np.array(res.coh, copy=True)
+                names = list(rng.permutation(resultcheck.ERRBARS + ["Gxy_emp_dev", "cf_db", "tf"]))
+                for nm in names[:int(rng.integers(1, len(names) + 1))]:
+                    getattr(res, nm)
+                if rng.random() < 0.3:
+                    res.to_dataframe()
+                rec.count("c09_reads_after_other_attributes")
+                if not np.array_equal(np.asarray(res.coh), coh0, equal_nan=True):
+                    j = int(np.argmax(~((np.asarray(res.coh) == coh0))))
+                    rec.violation("coherence-changed-by-reading-other-attributes",
+                                  f"{tag}coh[{j}] was {coh0[j]!r}; after reading error bars / "
+                                  f"exports it is {np.asarray(res.coh)[j]!r}")
+                else:
+                    resultcheck.c09_identities(res, rec, tag + "(after reading error bars) ")
+            except Exception as e:
+                rec.violation("result-access-raises", f"{tag}{type(e).__name__}: {e}")
 
     # swapped channels
     try:
